@@ -12,7 +12,7 @@ ORACLE_RULE = ("C09: every shipped formula indicator (26 kinds, rotating) x dege
 ASSUMPTIONS = ["Supertrend's long/short fields are exempt from the no-gap clause: exactly one of them is set by design (C10 checks that)",
                "Counter is exercised on input_value='volume', count_value=0; the other indicators on their default price inputs",
                "TZ=UTC for the timeframe families"]
-PARTIAL = ""
+PARTIAL = 'exact ordered field: every division/sqrt is guarded; the nine field-reading leaf kinds never raise on any raw stream; composite series and IEEE overflow/NaN outside (C09_FULL); open finding: ROC on a zero reference input'
 
 
 def oracle(ctx):
